@@ -47,6 +47,17 @@ EXTRA_PATHS = ["", "/", "//", "///", ".", "./", "/.", "{SB}", "{SB}/", "/{SB}/f.
                "d/dang.md", "d/d/dang.md", "trick.md/n.md", "loop.md/n.md", "lfi.md/", "dang.md/", "dang.md/."]
 
 
+def corpus(key):
+    """minimised past failures (corpus/C19/*.json): always run, through every entry point."""
+    out = []
+    for f in sorted((vlib.VERIF / "corpus" / "C19").glob("*.json")):
+        try:
+            out += json.loads(f.read_text()).get(key, [])
+        except Exception:  # noqa: BLE001
+            pass
+    return out
+
+
 def enum_paths(segs, depth, absolute):
     pre = "{SB}/" if absolute else ""
     for n in range(1, depth + 1):
@@ -159,7 +170,7 @@ def path_jobs(ctx):
     for k, ch in enumerate(chunked(val_paths, 6000)):
         jobs.append({"kind": "base", "seed": 0, "paths": ch, "tools": False, "tag": f"v{k}"})
     # (2) tools driven: all depth<=2 (relative and absolute) + extras + a seeded sample of deeper paths
-    tool_paths = list(enum_paths(segs, 2, False)) + list(enum_paths(segs, 1, True)) + EXTRA_PATHS
+    tool_paths = corpus("paths") + list(enum_paths(segs, 2, False)) + list(enum_paths(segs, 1, True)) + EXTRA_PATHS
     n_sample = ctx.budget(2500, 40000)
     deep_pool_depth = 4 if ctx.thorough else 3
     for _ in range(n_sample):
@@ -219,7 +230,7 @@ URI_EXTRA = ["{SB}/../out/secret.md", "{SB}/d/../../out/f.md", "loop.md/../lf.md
 
 def uri_list(ctx):
     d = 3 if ctx.thorough or ctx.widen > 1 else 2
-    return list(URI_EXTRA) + ["/".join(t) for n in range(1, d + 1) for t in itertools.product(URI_SEGS, repeat=n)]
+    return corpus("uris") + list(URI_EXTRA) + ["/".join(t) for n in range(1, d + 1) for t in itertools.product(URI_SEGS, repeat=n)]
 
 
 def comps(path: str):
